@@ -61,6 +61,14 @@ CHECKS.update({
                 text='Configuration alphabets are enumerated completely against the decoded SETUP; the connect race (suspending transport, late provider, requests issued while connecting) is explored over all schedules within the bound; every combination of SETUP flags/handler outcomes and RESUME is fed to a real server.',
                 ref='4 C16'),
 })
+CHECKS.update({
+    'C11': dict(tech='fault enumeration at byte offsets combined with deviation-bounded schedule exploration on two real endpoints',
+                text='At every choice point of the default execution of each pending mix the link is cut after every byte offset (or around every boundary) in each direction and failure mode, or closed explicitly by either side; the end state of every endpoint that observed the loss is judged.',
+                ref='4 C11'),
+    'C17': dict(tech='deviation-bounded exhaustive schedule exploration with fault and timer events (virtual clock) over a provider of several simulated transports',
+                text='Every cause of connection end x every reconnect trigger, the fault and the reconnect request placed at every choice point, up to two consecutive reconnects, on the real client with one real server per transport.',
+                ref='4 C17'),
+})
 NOT_YET = {
 }
 ALL = ['C%02d' % i for i in range(1, 21)]
